@@ -74,4 +74,9 @@ m = {
     'not_applicable': [],
 }
 json.dump(m, open(os.path.join(V, 'MANIFEST.json'), 'w'), indent=1)
+import glob
+mods = sorted(os.path.basename(f)[:-5] for f in glob.glob(os.path.join(V, 'lean', 'Rrss', 'Thm', '*.lean')))
+open(os.path.join(V, 'lean', 'Rrss', 'AllTheorems.lean'), 'w').write(
+    '-- generated by tools/mkmanifest.py: every property-theorem module, imported together\n-- (shows that the theorem files are mutually consistent: no clashing declarations)\n' +
+    ''.join('import Rrss.Thm.%s\n' % m_ for m_ in mods))
 print('manifest written:', sum(1 for c in checks if c['level_claimed']['category'] == 'proof'), 'proof,', len(checks), 'checks')
